@@ -1,8 +1,10 @@
 """C03 — pruning never changes the represented (partial) function."""
 from . import prune
+from . import helpers
 
 LEVEL = 'other'
 RULES = {
+    'C03.R6': helpers.RULE_TEXT,
     'C03.R1': 'every removal of a child outside impl Tree is control-dependent on an infeasibility verdict about that child '
               '(filtered by state Infeasible / queued under a fresh Infeasible state / false outcome of explore for the child just inserted), '
               'a decision is skipped only with one survivor and all other K-1 branches so justified',
@@ -13,7 +15,7 @@ RULES = {
 }
 CONTROL_REV = '078b142'  # thorough tier: the rules must still report the defects found (and since fixed) on the original tree
 CONTROLS = [('C03.R5', 'AffTree::generic_composition_inplace#call:Tree::remove_child'), ('C03.R5', 'AffTree::infeasible_elimination#call:Tree::try_remove_child')]
-FLOORS = {'C03.R1': 9, 'C03.R2': 12, 'C03.R3': 5, 'C03.R4': 2, 'C03.R5': 5}
+FLOORS = {'C03.R6': 5, 'C03.R1': 9, 'C03.R2': 12, 'C03.R3': 5, 'C03.R4': 2, 'C03.R5': 5}
 EXPLANATION = ('A path can disappear only after the LP back-end answered "infeasible" about exactly that path; '
                'decided structurally on every removal site, for all trees and inputs.')
 DOES_NOT_DECIDE = 'whether the LP answer is right (C10), tolerance effects'
@@ -151,6 +153,7 @@ def r4_skips(ctx):
 
 
 def run(ctx):
+    helpers.run_for(ctx)
     prune.check_removals(ctx, 'C03.R1')
     prune.check_infeasible_provenance(ctx, 'C03.R2')
     prune.check_edge_feasible_table(ctx, 'C03.R2')
